@@ -176,8 +176,23 @@ class Registry:
             if kind == "op":
                 pl = op_place(x) if x else None
                 ok = pl is not None and pl[0] in H
+                # a LoadedFileState value: the registrar (FileLoader::extract_file) only reads the variant's *first* field (the &InputFile, or the
+                # Vec<&InputFile> of a thin archive); a reference that merely sits somewhere inside the parsed parts is not registered
+                reg = self._registered_operand(body, flow, pl) if pl is not None else None
+                if reg is not None:
+                    rpl = op_place(reg)
+                    ok = rpl is not None and rpl[0] in H
+                    res.append((bi, ok, "the registered field of the returned LoadedFileState holds the reference" if ok else
+                                "the registered (first) field of the returned LoadedFileState does not hold the &InputFile: extract_file will not push it to loaded_files"))
+                    continue
                 res.append((bi, ok, "returned value holds the reference" if ok else "returned value does not hold the &InputFile (only data derived from it, or other files)"))
             elif kind == "agg":
+                if (x.get("adt") or "").endswith("LoadedFileState") and x["ops"]:
+                    rpl = op_place(x["ops"][0])
+                    ok = rpl is not None and rpl[0] in H
+                    res.append((bi, ok, "the registered field of the returned LoadedFileState holds the reference" if ok else
+                                "the registered (first) field of the returned LoadedFileState does not hold the &InputFile: extract_file will not push it to loaded_files"))
+                    continue
                 ok = any(op_place(o) and op_place(o)[0] in H for o in x["ops"])
                 res.append((bi, ok, "returned aggregate holds the reference" if ok else "returned aggregate does not hold the &InputFile"))
             elif kind == "call":
@@ -195,6 +210,22 @@ class Registry:
                         why = f"callee {ck} does not keep its parameter {i + 1} (&InputFile) in what it returns"
                 res.append((bi, ok, why))
         return res
+
+    def _registered_operand(self, body, flow, pl):
+        """If the place is (a copy of) a freshly built LoadedFileState aggregate, its first operand; else None."""
+        cur = pl[0]
+        for _ in range(6):
+            ds = flow.defs.get(cur, [])
+            if len(ds) != 1 or ds[0][1] == "call":
+                return None
+            rv = ds[0][3]
+            if rv["k"] == "agg" and (rv.get("adt") or "").endswith("LoadedFileState") and rv["ops"]:
+                return rv["ops"][0]
+            if rv["k"] in ("use", "cast") and op_place(rv["a"]):
+                cur = op_place(rv["a"])[0]
+                continue
+            return None
+        return None
 
     def passes(self, fkey, param):
         k = (fkey, param)
